@@ -55,6 +55,9 @@ enum Edit {
     StripRrsigs,
     /// change the CLASS of the answer records (0), of their RRSIGs (1) or of both (2)
     ClassChange(u8),
+    /// add a record of the same owner and type but another CLASS (0 CH, 1 HS, 2 unknown, 3 NONE)
+    /// in front (bit 2) or behind, with new (0) or copied (bit 3) RDATA
+    AddForeignClass(u8),
 }
 
 #[derive(Serialize, Deserialize, Clone, Debug)]
@@ -99,7 +102,7 @@ fn queries() -> Vec<Query> {
 }
 
 fn gen_edit(r: &mut Rng) -> (usize, Edit) {
-    let e = match r.below(28) {
+    let e = match r.below(30) {
         0..=3 => Edit::BitFlip(r.next_u64() as u32),
         4 => Edit::TypeCovered,
         5 => Edit::Algorithm,
@@ -123,7 +126,8 @@ fn gen_edit(r: &mut Rng) -> (usize, Edit) {
         23 => Edit::DnskeyKeyByte(r.next_u64() as u32),
         24 => Edit::SubstituteDnskey,
         25 => Edit::StripRrsigs,
-        _ => Edit::ClassChange(r.below(3) as u8),
+        26 | 27 => Edit::ClassChange(r.below(3) as u8),
+        _ => Edit::AddForeignClass(r.below(16) as u8),
     };
     let target = match e {
         Edit::DnskeyZoneFlagOff | Edit::DnskeyRevoke | Edit::DnskeyKeyByte(_) | Edit::SubstituteDnskey => 1,
@@ -301,6 +305,28 @@ fn apply_edit(orig: &Message, e: Edit, other_key: &PublicKeyBuf) -> Option<Messa
                 }
             }
         }
+        Edit::AddForeignClass(k) => {
+            use hickory_proto::rr::DNSClass;
+            let q = m.queries.first()?.clone();
+            let rec = m.answers.iter().find(|r| r.record_type() == q.query_type)?.clone();
+            let mut extra = rec.clone();
+            extra.dns_class = match k & 3 {
+                0 => DNSClass::CH,
+                1 => DNSClass::HS,
+                2 => DNSClass::Unknown(77),
+                _ => DNSClass::NONE,
+            };
+            if k & 8 == 0 {
+                if let RData::A(_) = extra.data {
+                    extra.data = RData::A(A::new(203, 0, 113, 67));
+                }
+            }
+            if k & 4 != 0 {
+                m.answers.insert(0, extra);
+            } else {
+                m.answers.push(extra);
+            }
+        }
         Edit::StripRrsigs => {
             let before = m.answers.len();
             m.answers.retain(|r| r.record_type() != RecordType::RRSIG);
@@ -467,6 +493,7 @@ fn edit_code(e: Edit) -> u64 {
         Edit::SubstituteDnskey => 22,
         Edit::StripRrsigs => 23,
         Edit::ClassChange(_) => 24,
+        Edit::AddForeignClass(_) => 25,
     }
 }
 
